@@ -1,6 +1,7 @@
 CONSTANTS
   ScenTab <- TVScenTab
   KnownSigs = {}
+  TrackHist = FALSE
 INIT TInit
 NEXT TNext
 INVARIANT Report
